@@ -522,10 +522,17 @@ def term_kinds(t):
     return ALL_KINDS
 
 
+MUTATORS = ('append', 'extend', 'insert', 'pop', 'remove', 'sort', 'reverse', 'clear')
+
+
 def stored_names(nodes):
     out = []
     for n in nodes:
         for x in ast.walk(n):
+            # in-place mutation through a method call counts as a modification of the variable
+            if isinstance(x, ast.Call) and isinstance(x.func, ast.Attribute) and x.func.attr in MUTATORS and \
+                    isinstance(x.func.value, ast.Name) and x.func.value.id not in out:
+                out.append(x.func.value.id)
             if isinstance(x, ast.Name) and isinstance(x.ctx, ast.Store) and x.id not in out:
                 out.append(x.id)
             if isinstance(x, ast.AugAssign) and isinstance(x.target, ast.Name) and x.target.id not in out:
@@ -927,7 +934,7 @@ class SpecAPI(object):
         self.table['OMITTED'] = _api.OMITTED
         self.table['datetime'] = ExtRef('datetime')
         self.table['math'] = ExtRef('math')
-        for nm in ('SEQ', 'ARGS', 'CONST', 'TUPLE', 'LISTN', 'OBJECT'):
+        for nm in ('SEQ', 'ARGS', 'CONST', 'CHOICE', 'TUPLE', 'LISTN', 'OBJECT'):
             self.table[nm] = Builtin('dom.' + nm, (lambda f: (lambda it, a, k: f(*a, **k)))(getattr(_api, nm)))
 
     def lookup(self, name):
@@ -1185,6 +1192,17 @@ class SpecAPI(object):
             NOT proved symbolically; the flag makes the evidence say so; natively it is exact) """
         it.ctx.flags.add('spec:parity_true is unconstrained symbolically (bounded only)')
         raise OutOfReach('parity_true: parity of a sum over a symbolic sequence (bounded only)')
+
+    def s_is_digits(self, it, a, k):
+        v = a[0]
+        if isinstance(v, str):
+            import re
+            return re.match(r'[0-9]+\Z', v) is not None
+        s = as_sym(v)
+        if it.ctx.narrow(s) != STR:
+            return False
+        self.world.axioms.int_text(it, s.pay(STR))
+        return it.ctx.branch(z3.InRe(s.pay(STR), z3.Plus(z3.Range(z3.StringVal('0'), z3.StringVal('9')))))
 
     def s_is_cell_label(self, it, a, k):
         """ the statement's label shape: optional $, letters, optional $, digits - and nothing else """
